@@ -98,7 +98,10 @@ def _meta_for(case, rng, nch):
         return dict(medium_index=mi, illum_wavelen=wl[labs[0]], illum_polarization=pol[labs[0]], noise_sd=ns[labs[0]]), \
             {"illum_wavelen": {l: wl[labs[0]] for l in labs}, "noise_sd": {l: ns[labs[0]] for l in labs}, "illum_polarization": {l: pol[labs[0]] for l in labs}}
     if form == "dict":
-        return dict(medium_index=mi, illum_wavelen=wl, illum_polarization=pol, noise_sd=ns), {"illum_wavelen": wl, "noise_sd": ns, "illum_polarization": pol}
+        def shuffled(d):   # a dict's meaning must not depend on its insertion order
+            ks = [labs[i] for i in rng.permutation(nch)]
+            return {k: d[k] for k in ks}
+        return dict(medium_index=mi, illum_wavelen=shuffled(wl), illum_polarization=shuffled(pol), noise_sd=shuffled(ns)), {"illum_wavelen": wl, "noise_sd": ns, "illum_polarization": pol}
     perm = list(rng.permutation(nch))
     pl = [labs[k] for k in perm]
     from holopy.core.metadata import to_vector
